@@ -448,6 +448,13 @@ def unit_programs(level="quick"):
     # the non-accepted module pipelog, which gives each of them an external dependency: here the dependent ones have none)
     base = unit_body_self() + [unit_body(p) for p in ("helper1", "helper2", "helper3", "method", "hof")] + [unit_var("int", "name", "helper2")]
     out += [_nolog(sp) for sp in base]
+    # the same pipelines written with 'from dds import keep, load, data_function'
+    for sp in unit_body_self()[:1] + [unit_body("helper2"), unit_var("int", "name", "direct"), unit_arg("lit_pos", "int"), unit_arg("rt_var")]:
+        sp = copy.deepcopy(sp)
+        sp["dds_names"] = True
+        sp["id"] += "/dds_names"
+        sp["key"] += "|dds_names"
+        out.append(sp)
     return out
 
 
